@@ -100,3 +100,39 @@ Proof.
   intros H. destruct (amalgamate_csr_exact pieces ns nc H) as (out & E & W & ND & ED & _).
   exists out. repeat split; try assumption; apply W.
 Qed.
+
+(* ---------------------------------------------------------------- the row count of the sparse destination *)
+(* amalgamate_csr_to_x does not compare final_shape[0] (= len(dst_obs) in amalgamate_h5ad)
+   with the number of rows of the pieces: with well-formed pieces of 1 + 2 rows and a row
+   count of 4 it returns normally and the pointer array written is zero-padded in the
+   middle, hence not monotone - not a CSR matrix; with a row count of 2 (one too few) it
+   returns normally and a row boundary is overwritten; only from two rows too few on does
+   h5py refuse.  (The dense destination raises RuntimeError "Expected shape ..." in all
+   these cases.)  c13_amalgamate / c13_amalgamate_join are about the row count that IS the
+   number of rows. *)
+Definition rc_pieces : list comp :=
+  [{| ptr := [0; 0]; idx := []; dat := [] |}; {| ptr := [0; 1; 2]; idx := [3; 0]; dat := [7; 8]%Z |}].
+
+Theorem amalgamate_rowcount_unchecked :
+  Forall2 (fun p n => wf_csr p n 4 /\ no_dup_minor p) rc_pieces [1; 2] /\
+  amalgamate_csr rc_pieces 3 = Ok {| ptr := [0; 0; 1; 2]; idx := [3; 0]; dat := [7; 8]%Z |} /\
+  (exists out, amalgamate_csr rc_pieces 4 = Ok out /\ ptr out = [0; 0; 1; 0; 2] /\ ~ mono (ptr out)) /\
+  amalgamate_csr rc_pieces 2 = Ok {| ptr := [0; 0; 2]; idx := [3; 0]; dat := [7; 8]%Z |} /\
+  amalgamate_csr rc_pieces 1 = Err EReject.
+Proof.
+  split.
+  { constructor; [|constructor; [|constructor]].
+    - split.
+      + unfold wf_csr, wf_comp; cbn [ptr idx dat hd last length mono].
+        split; [split; [reflexivity | split; [reflexivity | split; [lia | constructor]]] | split; reflexivity].
+      + intros j Hj. cbn [ptr length] in Hj. assert (j = 0) by lia. subst j. vm_compute. constructor.
+    - split.
+      + unfold wf_csr, wf_comp; cbn [ptr idx dat hd last length mono].
+        split; [split; [reflexivity | split; [reflexivity | split; [lia|]]] | split; reflexivity].
+        repeat (apply Forall_cons; [lia|]). apply Forall_nil.
+      + intros j Hj. cbn [ptr length] in Hj. assert (D : j = 0 \/ j = 1) by lia.
+        destruct D as [-> | ->]; vm_compute; repeat (apply NoDup_cons; [cbn [In]; lia|]); apply NoDup_nil. }
+  split; [vm_compute; reflexivity|]. split.
+  { eexists. split; [vm_compute; reflexivity|]. split; [reflexivity|]. cbn. lia. }
+  split; vm_compute; reflexivity.
+Qed.
